@@ -192,6 +192,11 @@ def run(ctx: Ctx) -> None:
             and is_self_attr(rets[0].value.func.value, "evaluator")
     ctx.ob("C14.R3", g, g.node if g else None, "tracker.get_number_evaluations() is the evaluator's counter", ok,
            "" if ok else "the budget does not read the evaluator's evaluation counter", module=tr.module.relpath)
+    # ---- R4: the counter a budget reads belongs to this search only
+    from .c08 import process_state_rule
+    ctx.rule("C14.R4", "trackers / evaluators / budgets keep no state shared between searches (no stateful defaults, no module-level counters)")
+    n4 = process_state_rule(ctx, "C14.R4", ("geneticengine.evaluation", "geneticengine.algorithms.api", "geneticengine.algorithms.heuristics"))
+    ctx.ob("C14.R4", None, None, "evaluation modules scanned for process-level state", True, f"{n4} candidate sites", module="geneticengine/evaluation")
     ctx.assumptions += ["every fitness evaluation terminates", "GP: the configured step yields individuals (C15)"]
 
 
